@@ -38,28 +38,28 @@ CHECKS = [
  dict(property_id="C17", quick_cmd="./check C17 quick", thorough_cmd="./check C17 thorough",
       evidence_file="evidence/C17.json", replay_cmd_template="./check C17 replay {path}", engine="parsesim",
       level_claimed=dict(category="fault_enumeration",
-        text="For every compiled corpus parser (19 grammar specs x table / recursive-ascent / LALR / with and without Location / built-in lexer = 88 parsers) and every sampled input, EVERY token pull of the fault-free history is turned into a stream error, EVERY executed fallible action (inlined ones and the start reduction included) is made to fail, pairs of both are sampled, and an unmatchable byte is spliced at every token boundary of built-in-lexer inputs; the faulted history must be the fault-free history up to the fault, the fault, and exactly that error - no further pull, no further action, also inside error recovery.",
+        text="For every compiled corpus parser (30 hand-written + 16 generated grammar specs x table / recursive-ascent / LALR / with and without Location / built-in lexer = 156 parsers; specs cover `!` recovery at several depths, inlined and unit-typed fallible actions, EBNF suffixes, nullable start symbols, merged-lookahead empty productions, regex terminals incl. an empty-matching one) and every sampled input, EVERY token pull of the fault-free history is turned into a stream error, EVERY executed fallible action (inlined ones and the start reduction included) is made to fail, pairs of both are sampled, the injected action error is any ParseError variant an action may return (User, UnrecognizedEof with empty/non-empty expected, InvalidToken), and unmatchable text (a control byte, a multi-byte character, a proper prefix of a longer terminal) is spliced at every token boundary of built-in-lexer inputs; the faulted history must be the fault-free history up to the fault, the fault, and exactly that error - no further pull, no further action, also inside error recovery.",
         design_ref="DESIGN.md section 4 (C17), section 3"),
       level_note=TB_B,
       technique="deterministic simulation with fault injection: exhaustive fault-position enumeration per input over token streams and fallible actions, prefix-refinement oracle against the fault-free history"),
  dict(property_id="C04", quick_cmd="./check C04 quick", thorough_cmd="./check C04 thorough",
       evidence_file="evidence/C04.json", replay_cmd_template="./check C04 replay {path}", engine="parsesim",
       level_claimed=dict(category="fault_enumeration",
-        text="END-OF-STREAM CLAUSE ONLY: the token stream is cut after every k < n tokens of every sampled sentence of every recovery-free corpus parser; the result must be Ok or UnrecognizedEof at the end of token k (the location type's default for k = 0, incl. a location struct whose Default is not a plausible position), never UnrecognizedToken/ExtraToken, exactly k+1 pulls and none after the end, and all back ends of a grammar agree.",
+        text="END-OF-STREAM CLAUSE ONLY: the token stream is cut after every k < n tokens of every sampled sentence of every recovery-free corpus parser; the result must be Ok or UnrecognizedEof at the end of token k (the location type's default for k = 0, incl. a location struct whose Default is not a plausible position), never UnrecognizedToken/ExtraToken, exactly k+1 pulls and none after the end, all back ends of a grammar agree, prefixes that are themselves sampled sentences are accepted, and for the built-in lexer white space (incl. CR LF) around the tokens moves neither result nor location.",
         design_ref="DESIGN.md section 4 (C04)"),
       level_note=TB_B + "; the rest of C04 (where the first non-viable token of an arbitrary rejected input lies, `expected` lists) needs a viable-prefix oracle over generated inputs and is NOT claimed",
       technique="deterministic simulation with fault injection: stream truncation at every position of sampled sentences"),
  dict(property_id="C27", quick_cmd="./check C27 quick", thorough_cmd="./check C27 thorough",
       evidence_file="evidence/C27.json", replay_cmd_template="./check C27 replay {path}", engine="parsesim",
       level_claimed=dict(category="exploration",
-        text="A parser value shared through an Arc by 2-4 shuttle-scheduled threads (seeded random and PCT depth-3 schedulers; every token pull and action body is a scheduling point), with re-entrant parses from inside actions and sequential reuse afterwards; each result and event history must equal that of a fresh parser on that input alone. Compile-time Send+Sync assertions for every corpus parser; the thorough tier adds Miri's seeded pre-emptive scheduler over real std threads for data races and UB.",
+        text="A parser value shared through an Arc by 2-4 shuttle-scheduled threads (seeded random and PCT depth-3 schedulers; every token pull and action body is a scheduling point), with re-entrant parses from inside actions, two different parser values used alternately and sequential reuse afterwards; every batch runs in a child process under a watchdog, and two real-thread probes (re-entrant; 4 threads stress, longer for `!` grammars) run always; each result and event history must equal that of a fresh parser on that input alone. Compile-time Send+Sync assertions for every corpus parser; the thorough tier adds Miri's seeded pre-emptive scheduler over real std threads for data races and UB.",
         design_ref="DESIGN.md section 4 (C27)"),
       level_note=TB_B + "; shuttle cannot see instruction-level races (Miri covers a small sample of seeds); schedules are sampled, not enumerated",
       technique="deterministic simulation: seeded schedule exploration (shuttle random + PCT) with replayable schedule files, Miri many-seeds in the thorough tier"),
  dict(property_id="C20", quick_cmd="./check C20 quick", thorough_cmd="./check C20 thorough",
       evidence_file="evidence/C20.json", replay_cmd_template="./check C20 replay {path}", engine="buildsim",
       level_claimed=dict(category="exploration",
-        text="The simulator owns every source of nondeterminism a generation run can meet: hash keys (getrandom interposed, so every HashMap of lalrpop and its dependencies is re-keyed per run), batch composition and processing order, in-process history, file names and directories, creation order, heap-address shift, environment noise. For every pool grammar (incl. invalid and type-cycle texts) the bytes written and the success of the call must equal a forced build of the text alone under hash seed 0. The canary HashSet order counts distinct hash worlds reached.",
+        text="The simulator owns every source of nondeterminism a generation run can meet: hash keys (getrandom interposed, so every HashMap of lalrpop and its dependencies is re-keyed per run), batch composition (2-17 files) and processing order, in-process history (incl. files that failed earlier), file names, directories, path spellings and working directory, creation order, heap-address shift, environment (random and well-known variables), wall clock and pid (interposed), temporary directory. For every pool grammar (incl. invalid and type-cycle texts) the bytes written and the success of the call must equal a forced build of the text alone under hash seed 0. The canary HashSet order counts distinct hash worlds reached.",
         design_ref="DESIGN.md section 4 (C20)"),
       level_note=TB_A + "; determinism is checked over a fixed grammar pool, not over all grammars",
       technique="deterministic simulation: seeded hash-key / batch / order / address perturbation, outputs compared with the fault-free reference"),
@@ -73,7 +73,7 @@ CHECKS = [
  dict(property_id="C21", quick_cmd="./check C21 quick", thorough_cmd="./check C21 thorough",
       evidence_file="evidence/C21.json", replay_cmd_template="./check C21 replay {path}", engine="buildsim",
       level_claimed=dict(category="exploration",
-        text="Seeded histories (4-25 ops over 1-5 grammars, four entry-point layouts incl. the real CLI) of grammar edits, reverts, touches, mtime changes, output deletion, version/hash header damage (incl. non-UTF-8 bytes and truncation), error introduction/removal and non-forced/forced builds; after every build a reference model demands byte-identity with a forced build, no output for failed grammars, untouched current outputs (no mutating libc call on the path, same inode and mtime) and Ok iff nothing failed. Half of the runs add transparent faults (short reads/writes, EINTR) that must change nothing.",
+        text="Seeded histories (4-25 ops over 1-5 grammars, four entry-point layouts incl. the real CLI) of grammar edits (comment, white space, CR LF, tab, appended rule), reverts, touches, mtime changes, output deletion, foreign files at output paths, version/hash header damage (digit flips, truncation, case, appended text, non-UTF-8 bytes), error introduction/removal (syntax, unresolved symbol, conflict, non-UTF-8, empty, BOM, NUL, a text that makes the generator die) and non-forced/forced builds, some of them by a long-lived process that reuses one Configuration while the grammar changes under it; after every build a reference model demands byte-identity with a forced build, no output for failed grammars, untouched current outputs (no mutating libc call on the path, same inode and mtime) and Ok iff nothing failed. Half of the runs add transparent faults (short reads/writes, EINTR) that must change nothing.",
         design_ref="DESIGN.md section 4 (C21)"),
       level_note=TB_A + "; white-space-only header edits, output collisions and body edits under an intact header are outside the stated contract and not generated",
       technique="deterministic simulation: seeded operation histories against a reference model, transparent fault injection (short I/O, EINTR) at the libc boundary"),
